@@ -588,3 +588,40 @@ package processor
 //@   site return #5:
 //@     assert [the-walk-ends-only-at-the-end-of-the-list] e == nil
 //@ end
+
+// C06 (row-wise commands give the same output however the input is cut into
+// batches): rex sets its extraction columns for EVERY row of every batch that
+// has rows — a row without a match gets the null back-fill, whether or not any
+// other row of the same batch matched.  So a successful Process of a non-empty
+// batch has appended the extraction columns (sized to the batch, pre-filled with
+// the back-fill value), and each row is matched into its own index.
+// Ghosts rexRows / rexAppended: rows of this batch; the columns were appended.
+//@ ghostdecl rexRows int
+//@ ghostdecl rexAppended int
+//@ func (*rexProcessor).Process
+//@   props C06
+//@   assumecalleerequires
+//@   requires p != nil
+//@   ghostinit ghost(0, "rexRows") == 0 && ghost(0, "rexAppended") == 0
+//@   site callret iqr.ReadColumn #1:
+//@     ghostset ghost(0, "rexRows") = ite(result1 == nil, len(result0), 0)
+//@   site call structs.MatchAndPopulateNamedGroups #1:
+//@     assert [each-row-is-matched-into-its-own-index-of-the-new-columns] arg3 == idx && arg4 == len(values) && arg2 == newColValues
+//@   site call iqr.AppendKnownValues #1:
+//@     assert [the-columns-appended-are-the-ones-filled-row-by-row] arg1 == newColValues
+//@   site callret iqr.AppendKnownValues #1:
+//@     ghostset ghost(0, "rexAppended") = ite(result == nil, 1, 0)
+//@   ensures [a-batch-with-rows-always-gets-its-extraction-columns] implies(result1 == nil && ghost(0, "rexRows") > 0, ghost(0, "rexAppended") == 1)
+//@ end
+
+// C05 (`sort N` / `head N` over merged streams yields a prefix of the sorted
+// stream): the merger counts the records it has RETURNED against the limit, so
+// the counter advances by the size of the batch as it is handed on — after the
+// trim to the remaining limit, not before it (a counter beyond the limit makes
+// the remaining limit wrap to about 2^64 and everything passes through).
+//@ func (*DataProcessor).getStreamInput
+//@   props C05
+//@   assumecalleerequires
+//@   site store dp.mergeSettings.numReturned #1:
+//@     assert [the-returned-counter-advances-by-the-size-of-the-batch-handed-on] implies(iqr != nil, value == dp.mergeSettings.numReturned + uint64(ghost(iqr, "iqrN")))
+//@ end
